@@ -4,7 +4,7 @@
    tensor R U R^T with R the rotation of the first operation generating the position. *)
 From Coq Require Import ZArith List Bool String Lia.
 From DS Require Import Base.ZMat Base.SGDefs Base.C09_GNum Model.GroupCheck Model.C02_Orbit.
-From DS Require Import Model.C09_Prims Gen.C09_AtomFormulas Model.C09_AtomADP Model.C11_LookupDefs.
+From DS Require Import Model.C09_Prims Gen.C09_AtomFormulas Model.C09_AtomADP Model.C11_LookupDefs Proofs.C02_OrbitStab.
 From DS Require Import Model.C07_Text Model.C07_SymopText Model.C07_SpecDefs Gen.C07_CifSpec Model.C07_CifRead.
 Import ListNotations.
 
@@ -134,6 +134,34 @@ Proof.
   destruct (expand_all_blocks the_label_scheme (snd sg) (parents E (snd sg) st)
               (map (fun au => a_label (fst au)) (parents E (snd sg) st))) as [bl [Hb Hf]].
   exists bl. split; [exact Hb|]. split; [exact Hf|]. rewrite Hb. apply blocks_length. exact Hf.
+Qed.
+
+(* with C02's theorem: when the operations form a group modulo lattice translations (every tabulated setting does,
+   C03), the positions of a block are pairwise distinct, inside the cell, start with the site itself, are exactly the
+   images of the site, and their number times the order of the site symmetry is the order of the group *)
+Definition orbit_spec (G : list symop) (au : ratom * gmat T) (blk : list (oatom (T:=T))) : Prop :=
+  let x := grid_of E (a_xyz (fst au)) in
+  NoDup (map o_pos blk) /\
+  (forall p, In p (map o_pos blk) -> in_cell (D E) p) /\
+  hd_error (map o_pos blk) = Some (red (D E) x) /\
+  (forall p, In p (map o_pos blk) <-> exists g, In g G /\ p = img (D E) g v0 x) /\
+  (List.length blk * List.length (stab (D E) G v0 x))%nat = List.length G.
+
+Lemma site_orbit G au blk : IsGroup G -> (0 < D E)%Z -> (12 | D E)%Z -> site_spec G au blk -> orbit_spec G au blk.
+Proof.
+  intros Hg HD H12 [H1 [H2 _]]. unfold orbit_spec, mult_of, site_expansion in *.
+  pose proof (expand_exact_spec (D E) G v0 (grid_of E (a_xyz (fst au))) Hg HD H12) as Hs.
+  destruct (expand_exact (D E) G v0 (grid_of E (a_xyz (fst au)))) as [[pos opss] m]. cbn [fst snd] in *.
+  destruct Hs as [S1 [S2 [S3 [S4 [_ [_ [S7 S8]]]]]]]. subst pos m. split; [exact S1|]. split; [exact S2|]. split; [exact S3|]. split; [exact S4 | exact S8].
+Qed.
+
+Theorem cif_orbits_exact find Tb b r : read_cif E find Tb b = Ok r -> IsGroup (r_group r) -> (0 < D E)%Z -> (12 | D E)%Z ->
+  exists blocks, r_atoms r = List.concat blocks /\
+                 Forall2 (fun au blk => site_spec (r_group r) au blk /\ orbit_spec (r_group r) au blk) (r_parents r) blocks.
+Proof.
+  intros Hr Hg HD H12. destruct (cif_is_union_of_orbits find Tb b r Hr) as [bl [Hb [Hf _]]].
+  exists bl. split; [exact Hb|]. clear Hb. induction Hf as [|au blk l bls H1 _ IH]; constructor; [|exact IH].
+  split; [exact H1 | apply site_orbit; assumption].
 Qed.
 
 End Union.
